@@ -385,6 +385,15 @@ def main():
     for c_, q_ in corpus_objects(histories=False):          # distilled regression inputs first (extrema on the interpolant, incl. origins just after the extremum)
         vv = []
         n = extremum_check(c_, q_, lambda key, what, **kw: vv.append(dict(key=key, what=what, cfg=jsonable(c_), **kw)))
+        # the integer that decides which branch of iota the sequence over nphi converges to: helicity = sG * spsi * (turns of the normal) on every grid that resolves the normal
+        try:
+            import oracle_C13
+            w_ = oracle_C13.winding(q_); n += 1
+            if normal_resolved(q_) and q_.helicity != q_.sG * q_.spsi * w_:
+                vv.append(dict(key='helicity', what='helicity %r but the normal makes %d turn(s) per field period at nphi=%d: iota is off by a multiple of nfp, the sequence over nphi cannot converge'
+                               % (q_.helicity, w_, q_.nphi), cfg=jsonable(c_)))
+        except Exception:
+            pass
         res['predictions_checked'] += n; res['violations'] += vv; res['configs'] += 1
         dist['corpus'] = dist.get('corpus', 0) + 1
     # fixed resolution ladder: a quasi-helically symmetric axis with a NON-symmetric sigma (sigma0 != 0) at order r3 -- the only combination in which
